@@ -135,6 +135,10 @@ func newSpan(min *Version, minOpen bool, max *Version, maxOpen bool) (span, erro
 	max.build = ""
 	switch {
 	case min.equal(max):
+		if minOpen || maxOpen {
+			// The single point is excluded: [1.0,1.0) is empty.
+			return span{rank: empty}, nil
+		}
 		return span{
 			minOpen: minOpen,
 			maxOpen: maxOpen,
